@@ -213,6 +213,45 @@ def sym_valid(mode, form, t):
     return bool({"cal": R.valid_cal, "ord": R.valid_ord, "week": R.valid_week}[form](P, mode, *t))
 
 
+# oracle evaluated on proxies WITHOUT forking (merged: ite atoms, linear) -------
+M = core.MOps
+
+
+def fields_of(p, rep=None):
+    rep = rep or rep_of(p)
+    if rep == "cal":
+        return (p._year, p._month_of_year, p._day_of_month)
+    if rep == "ord":
+        return (p._year, p._day_of_year)
+    return (p._year, p._week_of_year, p._day_of_week)
+
+
+def m_daynum(mode, form, t):
+    return {"cal": R.daynum_cal, "ord": R.daynum_ord, "week": R.daynum_week}[form](M, mode, *t)
+
+
+def m_valid_date(mode, form, t):
+    return {"cal": R.valid_cal, "ord": R.valid_ord, "week": R.valid_week}[form](M, mode, *t)
+
+
+def m_instant(mode, p, rep=None):
+    rep = rep or rep_of(p)
+    tz = p._time_zone
+    return (m_daynum(mode, rep, fields_of(p, rep)) * 86400 +
+            p._hour_of_day * 3600 + p._minute_of_hour * 60 + p._second_of_minute -
+            tz._hours * 3600 - tz._minutes * 60)
+
+
+def m_valid_point(mode, p, rep=None, allow24=False):
+    """z3 Bool: p is a valid point (merged oracle, no forks)"""
+    rep = rep or rep_of(p)
+    tz = p._time_zone
+    c = M.And(m_valid_date(mode, rep, fields_of(p, rep)),
+              R.valid_time(M, p._hour_of_day, p._minute_of_hour, p._second_of_minute, allow24=allow24),
+              R.valid_tz(M, tz._hours, tz._minutes))
+    return core.zbool(c)[0]
+
+
 # concrete versions -----------------------------------------------------------
 def py_daynum(mode, p):
     if p._month_of_year is not None:
